@@ -11,8 +11,10 @@ Witness = index of the configuration in ``CONFIGS`` (deterministic enumeration, 
 from __future__ import annotations
 
 import itertools
+import os
 import shutil
 import tempfile
+import time
 from pathlib import Path
 
 import numpy as np
@@ -95,7 +97,15 @@ def handles(func: str) -> bool:
     return any(f in func for f in FUNCS)
 
 
+def search_family(ob) -> str:
+    """What the order of the enumeration depends on (key of the per-process memo of contracts/rt_c11.replay)."""
+    return "backup-starts-consistent" if "backup-starts-consistent" in ob.name else "final-export" if "final-export" in ob.name else ""
+
+
 def replay(ob, seed=0):
+    # wall-clock budget of one search (RT_C12_BUDGET seconds, default 30; the 18 configurations take about 10 s on an idle machine, a witness of the known
+    # finding is found with the first configuration tried); out of budget = no witness
+    deadline = time.time() + float(os.environ.get("RT_C12_BUDGET", "30"))
     order = list(range(len(CONFIGS)))
     if "backup-starts-consistent" in ob.name:
         order.sort(key=lambda i: not (CONFIGS[i][0] and not CONFIGS[i][1] and not CONFIGS[i][2]))  # the known failing region first
@@ -104,6 +114,8 @@ def replay(ob, seed=0):
     tmp = Path(tempfile.mkdtemp(prefix="rt_c12."))
     try:
         for i in order:
+            if time.time() > deadline:
+                return None
             try:
                 r = run(CONFIGS[i], tmp)
             except Exception as e:  # noqa: BLE001
